@@ -665,6 +665,14 @@ class dir_archive(archive):
             raise
         # move the results to the proper place
         try: #XXX: possible permissions issues here
+            _new, _old = self._getdir(_key), self._getdir(key)
+            try: files = set(os.listdir(_new)).issuperset(os.listdir(_old))
+            except OSError: files = False # no entry yet
+            if files: # overwrite file by file, so the key is never absent
+                for f in os.listdir(_new):
+                    os.replace(os.path.join(_new,f), os.path.join(_old,f))
+                self._rmpath(_new)
+                return
             self._rmdir(key) #XXX: 'key' must be a suitable dir name
             os.renames(self._getdir(_key), self._getdir(key))
 #       except TypeError: #XXX: catch key that isn't converted to safe filename
